@@ -1,7 +1,9 @@
 /* c17_common.c -- resource probes shared by the C17 harnesses (included, not linked).
    fd_count()   : number of entries of /proc/self/fd (the directory stream's own descriptor excluded)
-   h5_count()   : H5Fget_obj_count(H5F_OBJ_ALL, H5F_OBJ_ALL) -- every open HDF5 identifier that belongs to a file
-                  (files, groups, datasets, named datatypes, attributes), process wide
+   h5_count()   : H5Fget_obj_count(H5F_OBJ_ALL, H5F_OBJ_ALL) -- every open HDF5 identifier of the kinds files, groups,
+                  datasets, datatypes, attributes, process wide.  With H5F_OBJ_ALL as the file, libhdf5 also counts
+                  identifiers that belong to NO file (a transient datatype that was never closed), which the per-file
+                  counts with H5F_OBJ_LOCAL never see.  (H5Inmembers cannot be used: it refuses library types.)
    heap_bytes() : bytes currently allocated according to the sanitizer allocator (exact, not a high-water mark)
    leak_check() : LeakSanitizer recoverable check now (reports unreachable blocks with their allocation stacks on stderr);
                   returns 1 when a leak was reported.  Only meaningful when ASAN_OPTIONS has detect_leaks=1. */
